@@ -88,7 +88,7 @@ def expand(g):
     g = dict(g)
     g.setdefault('tier', 'quick')
     g.setdefault('mode', 'contracts')
-    g.setdefault('solver', 'minisat')
+    g.setdefault('solver', os.environ.get('QV_SOLVER', 'cadical'))
     g.setdefault('timeout', 600)
     g.setdefault('mem', 12000)
     g.setdefault('strength', 'proof')
@@ -364,7 +364,7 @@ def run_group(g, repo=REPO, use_cache=True):
 
 # ------------------------------------------------------------------ witness + native replay
 
-def extract_inputs(trace, entry):
+def extract_inputs(trace, entry, harness=''):
     """take the harness's named inputs (QV_IN / QV_IN_BYTES) from a cbmc json trace"""
     wit = {}
     cur_i = 0
@@ -372,7 +372,7 @@ def extract_inputs(trace, entry):
         if st.get('stepType') != 'assignment':
             continue
         loc = st.get('sourceLocation', {}) or {}
-        if loc.get('function') != entry:
+        if loc.get('function') != entry and not (harness and (loc.get('file') or '').endswith(harness)):
             continue
         lhs = st.get('lhs', '')
         val = st.get('value', {})
@@ -480,7 +480,7 @@ def witness_search(g, prop, failed_obs, repo=REPO):
         fails.sort(key=lambda o: (o['desc'] not in want, len(o['trace'])))
         best = None
         for f in fails[:4]:
-            wit = extract_inputs(f['trace'], g['entry'])
+            wit = extract_inputs(f['trace'], g['entry'], g['harness'])
             rep = native_replay(g, wit, scratch, repo)
             cand = {'witness': wit, 'witness_obligation': f['desc'], 'replay': rep}
             if rep.get('verdict', '').startswith('reproduced'):
